@@ -16,8 +16,10 @@ type pair[K, V any] struct {
 	Val V
 }
 
-func NewIntegerIter(n int) Iterator[pair[int, any]] {
-	return &integerIter{n: n, i: -1}
+// generic over the operand's type: a range over an integer of any integer type
+// (int64, uint8, a defined type ...) yields keys of that type
+func NewIntegerIter[T integer](n T) Iterator[pair[T, any]] {
+	return &integerIter[T]{n: n}
 }
 
 // generic over the operand's type: a range over a defined string type
@@ -40,18 +42,28 @@ func NewChanIter[V any](ch <-chan V) Iterator[pair[V, any]] {
 	return &chanIter[V]{ch: ch}
 }
 
-type integerIter struct {
-	n int
-	i int
+type integer interface {
+	~int | ~int8 | ~int16 | ~int32 | ~int64 |
+		~uint | ~uint8 | ~uint16 | ~uint32 | ~uint64 | ~uintptr
 }
 
-func (i *integerIter) MoveNext() bool {
-	i.i++
-	return i.i < i.n
+type integerIter[T integer] struct {
+	n    T
+	i    T // current key
+	next T // key of the next iteration, never beyond n (no -1 start: T may be unsigned)
 }
 
-func (i *integerIter) Current() pair[int, any] {
-	return pair[int, any]{Key: i.i}
+func (i *integerIter[T]) MoveNext() bool {
+	if i.next >= i.n {
+		return false
+	}
+	i.i = i.next
+	i.next++
+	return true
+}
+
+func (i *integerIter[T]) Current() pair[T, any] {
+	return pair[T, any]{Key: i.i}
 }
 
 type stringIter struct {
